@@ -242,6 +242,7 @@ fn replay(path: &str) -> i32 {
                 "C16" => props_sched::c16_families(tier),
                 "C14" => props_sched::c14_families(tier),
                 "C15" => props_sched::c15_families(tier),
+                "C01" => props_sched::c01_families(tier),
                 _ => vec![],
             };
             let fam = match fams.iter().find(|f| Some(f.name.as_str()) == v["family"].as_str()) {
@@ -335,7 +336,12 @@ fn main() {
             }
             watchdog::start(if id.starts_with("C14") { "C14" } else { &id });
             let out = match id.as_str() {
-                "C01" => check_seq("C01", tier),
+                "C01" => {
+                    let a = check_seq("C01", tier);
+                    let b = check_sched::check("C01", tier, props_sched::c01_families(tier), &["linearizable", "no-panic", "deadlock", "livelock"], nthreads());
+                    let t = a.tier.clone();
+                    report::merge("C01", &t, vec![("sequential_histories", a), ("concurrent_other_key_all_schedules", b)])
+                }
                 "C02" => check_seq("C02", tier),
                 "C03" => check_sched::check("C03", tier, props_sched::c03_families(tier), &["linearizable", "no-panic"], nthreads()),
                 "C04" => check_sched::check("C04", tier, props_sched::c04_families(tier), &["linearizable", "no-panic"], nthreads()),
@@ -390,6 +396,7 @@ fn main() {
                 "C04" => props_sched::c04_families(tier),
                 "C16" => props_sched::c16_families(tier),
                 "C15" => props_sched::c15_families(tier),
+                "C01" => props_sched::c01_families(tier),
                 _ => props_sched::c14_families(tier),
             };
             sut::set_quiet(true);
